@@ -193,8 +193,15 @@ class CanonicalEvolutionDesigner(vza.PartiallySerializableDesigner,
     candidates = self._population + self._converter.to_population(completed)
     self._population = self._survival.select(candidates)
 
+  _NUM_TRIALS_SEEN_KEY = 'num_trials_seen'
+
   def load(self, metadata: vz.Metadata):
     self._population = type(self._population).recover(metadata)
+    # The counter decides between the sampling and the mutation phase.
+    if self._NUM_TRIALS_SEEN_KEY in metadata:
+      self._num_trials_seen = int(metadata[self._NUM_TRIALS_SEEN_KEY])
 
   def dump(self) -> vz.Metadata:
-    return self._population.dump()
+    metadata = self._population.dump()
+    metadata[self._NUM_TRIALS_SEEN_KEY] = str(self._num_trials_seen)
+    return metadata
